@@ -1404,3 +1404,74 @@ Proof.
       * rewrite Nat.sub_diag in H1. cbn in H1. inversion H1; subst. left. rewrite H3. left. reflexivity.
       * right. exists y. replace (n - i) with (S (n - S i)) in H1 by lia. repeat split; [exact H1|lia|exact H3].
 Qed.
+
+(* ================================================================== 8. from the table conditions to the semantic core *)
+Lemma str_list_eqb_eq a : forall b, str_list_eqb a b = true -> a = b.
+Proof.
+  unfold str_list_eqb. induction a as [|x a IH]; intros [|y b] H; try discriminate; [reflexivity|].
+  cbn [list_eqb] in H. apply andb_true_iff in H. destruct H as [H1 H2]. apply str_eqb_eq in H1. subst. f_equal. apply IH. exact H2.
+Qed.
+
+(* a getter that passed ok_getter reads the documented field *)
+Lemma ok_getter_field e g : ok_getter e g = true -> r_op g = OGet ->
+  r_fields g = [s_field e] /\ reading_ok (s_reading e) (r_codec g) = true /\
+  (s_exception e = true \/ title_hyphen (r_method g) = s_field e).
+Proof.
+  unfold ok_getter. intros H Ho. rewrite Ho in H. destruct (r_codec g); (* same shape for every codec *)
+    (apply andb_true_iff in H; destruct H as [H H3]; apply andb_true_iff in H; destruct H as [H1 H2];
+     split; [apply str_list_eqb_eq; exact H1|]; split; [exact H2|];
+     apply orb_true_iff in H3; destruct H3 as [H3|H3]; [left; exact H3|right; apply str_eqb_eq; exact H3]).
+Qed.
+
+Theorem ok_pair_sound e g s : ok_pair e g s = true -> r_op g = OGet ->
+  r_fields g = [s_field e] /\ r_fields s = [s_field e] /\ forall arg, pair_ok g s arg = true.
+Proof.
+  unfold ok_pair. intros H Ho. apply andb_true_iff in H. destruct H as [Hg H]. rewrite Ho in H.
+  destruct (ok_getter_field e g Hg Ho) as (Fg & _ & _).
+  assert (Os : (r_op s = OSet \/ r_op s = OSetOrRemove) /\
+               str_list_eqb (r_fields s) [s_field e] && rt_law (r_codec g) (r_codec s) && op_ok (r_codec g) (r_op s) (r_codec s) = true).
+  { destruct (r_op s); try discriminate; (split; [tauto|exact H]). }
+  destruct Os as [Os H']. apply andb_true_iff in H'. destruct H' as [H' H3]. apply andb_true_iff in H'. destruct H' as [H1 H2].
+  apply str_list_eqb_eq in H1. split; [exact Fg|]. split; [exact H1|].
+  intros arg. unfold pair_ok, row_field. rewrite Ho, Fg, H1.
+  destruct Os as [Os|Os]; rewrite Os in *; rewrite str_eqb_refl, H2, H3; reflexivity.
+Qed.
+
+Theorem ok_pair_sound_param e g s : ok_pair e g s = true -> r_op g = OGetParam ->
+  forall arg, pair_ok g s arg = true.
+Proof.
+  unfold ok_pair. intros H Ho arg. apply andb_true_iff in H. destruct H as [Hg H]. rewrite Ho in H.
+  unfold ok_getter in Hg. rewrite Ho in Hg.
+  assert (Fg : r_fields g = []) by (destruct (r_codec g), (r_fields g); try discriminate; reflexivity).
+  destruct (r_op s) eqn:Os; try discriminate. destruct (r_fields s) eqn:Fs; [|discriminate].
+  apply andb_true_iff in H. destruct H as [H2 H3].
+  unfold pair_ok, row_field. rewrite Ho, Os, Fg, Fs, str_eqb_refl, H2, H3. reflexivity.
+Qed.
+
+(* every getter row of a table that passed ok_accessors, together with the setter set_<name> of
+   the same type if the table has one *)
+Theorem ok_accessors_getter sp t g : ok_accessors sp t = true -> In g t -> r_role g = RGetter ->
+  exists e, find_spec sp (r_ty g) (r_method g) = Some e /\
+    match find_row t (r_ty g) (setter_name (r_method g)) with
+    | Some s => ok_pair e g s = true
+    | None => ok_getter e g = true
+    end.
+Proof.
+  unfold ok_accessors. intros H Hg Hr. rewrite forallb_forall in H. specialize (H g Hg). unfold ok_row in H. rewrite Hr in H.
+  destruct (find_spec sp (r_ty g) (r_method g)) as [e|]; [|discriminate]. exists e. split; [reflexivity|].
+  destruct (find_row t (r_ty g) (setter_name (r_method g))); exact H.
+Qed.
+
+(* a Relations value is valid exactly when the strict reader accepts its text (then the text reads
+   back to the same tree text: C09) *)
+Lemma rel_strict_text s t : RelParse.relations_from_str s = Ok t -> text t = s.
+Proof.
+  intros H. unfold RelParse.relations_from_str in H. destruct (RelParseP.rparse_total s false) as (t' & n & E & Ht).
+  rewrite E in H. destruct n; [|discriminate]. injection H as <-. exact Ht.
+Qed.
+Theorem rel_valid_iff c s : valid_typed c TRelations (VStr s) = true <-> exists t, RelParse.relations_from_str s = Ok t.
+Proof.
+  cbn [valid_typed vparse]. split.
+  - destruct (RelParse.relations_from_str s) as [t| | |]; try discriminate. intros _. exists t. reflexivity.
+  - intros (t & E). rewrite E, (rel_strict_text s t E). apply str_eqb_refl.
+Qed.
